@@ -493,9 +493,9 @@ def execute(scenario):
     caches = env.find_parse_caches()
     verdict["probes"]["parse_caches_found"] = len(caches)
     for name, cache in zip(("cond", "ahb"), caches):
-        info = cache.cache_info()
-        verdict["probes"][f"cache_hits_{name}"] = info.hits
-        verdict["probes"][f"cache_misses_{name}"] = info.misses
+        info = cache.cache_info()  # a measuring device only: whatever it lacks is simply not reported
+        verdict["probes"][f"cache_hits_{name}"] = getattr(info, "hits", 0) or 0
+        verdict["probes"][f"cache_misses_{name}"] = getattr(info, "misses", 0) or 0
     return verdict
 
 
